@@ -149,6 +149,67 @@ theorem mutation_sound_record {S P A : Type} [DecidableEq P] (Sg : SigScheme S K
   cases hy2; cases hy5
   rw [← hx4, ← hy4]
 
+/-! ## field boundaries (empty fields included) -/
+
+/-- **injectivity for ALL triples** — no side condition: fields may be empty, of any length, with
+any content.  (A length prefix is always written, `Varint.encode 0 = [0]`, so an empty field still
+occupies one byte and boundaries cannot move.) -/
+theorem signaturePayload_injective (d t p d' t' p' : List Nat) :
+    signaturePayload d t p = signaturePayload d' t' p' ↔ d = d' ∧ t = t' ∧ p = p' :=
+  ⟨sigpayload_injective d t p d' t' p', by rintro ⟨rfl, rfl, rfl⟩; rfl⟩
+
+/-- moving a whole field across an empty neighbour changes the signed bytes -/
+theorem empty_field_not_movable (d t : List Nat) (ht : t ≠ []) :
+    signaturePayload d t [] ≠ signaturePayload d [] t := by
+  intro h
+  exact ht ((signaturePayload_injective _ _ _ _ _ _).1 h).2.1
+
+/-- the signed bytes parse back to exactly the three fields -/
+theorem splitPayload_signaturePayload (d t p : List Nat) :
+    splitPayload (signaturePayload d t p) = some (d, t, p) := by
+  unfold splitPayload signaturePayload
+  rw [List.append_assoc, Varint.decode_encode]
+  have h1 : ¬ ((d ++ (Varint.encode t.length ++ t ++ (Varint.encode p.length ++ p))).length < d.length) := by
+    simp
+  simp only [h1, ↓reduceIte, List.drop_left, List.take_left]
+  rw [List.append_assoc, Varint.decode_encode]
+  have h2 : ¬ ((t ++ (Varint.encode p.length ++ p)).length < t.length) := by simp
+  simp only [h2, ↓reduceIte, List.drop_left, List.take_left]
+  rw [Varint.decode_encode]
+  simp
+
+theorem specPayloadBytes_model (d t p : List Nat) :
+    specPayloadBytes d t p (signaturePayload d t p) = true := by
+  simp [specPayloadBytes, splitPayload_signaturePayload]
+
+/-- the re-split Spec accepts the model: with ideal signatures, a presented triple passes iff it is
+the signed one -/
+theorem specResplit_model (d t p d' t' p' : List Nat) :
+    specResplit d t p d' t' p' (resplitModel d t p d' t' p').1 (resplitModel d t p d' t' p').2 = true := by
+  unfold specResplit resplitModel
+  by_cases h : d = d' ∧ t = t' ∧ p = p'
+  · obtain ⟨rfl, rfl, rfl⟩ := h; simp
+  · have hne : signaturePayload d t p ≠ signaturePayload d' t' p' :=
+      fun he => h ((signaturePayload_injective _ _ _ _ _ _).1 he)
+    have hb : (signaturePayload d t p == signaturePayload d' t' p') = false := by simpa using hne
+    have hs : (d == d' && t == t' && p == p') = false := by
+      simp only [Bool.and_eq_false_iff, beq_eq_false_iff_ne, ne_eq]
+      by_cases h1 : d = d'
+      · by_cases h2 : t = t'
+        · right; intro h3; exact h ⟨h1, h2, h3⟩
+        · left; right; exact h2
+      · left; left; exact h1
+    simp [hb, hs]
+
+/-- **re-split soundness**: an envelope accepted for `(d', t')` releasing `p'` under a key whose
+holder only signed `(d, t, p)` presents the very same triple — whatever boundary was moved. -/
+theorem resplit_sound {S : Type} (Sg : SigScheme S K) (e : Envelope K) (k : K) (d t p d' t' p' : List Nat)
+    (honly : ∀ m, Sg.signed k m → m = signaturePayload d t p)
+    (hacc : e.payloadAndSigningKey Sg.verify d' t' = .ok (p', k)) :
+    (d', t', p') = (d, t, p) := by
+  obtain ⟨h1, h2, h3⟩ := mutation_sound Sg e d' t' p' k d t p honly hacc
+  rw [h1, h2, h3]
+
 /-! ## the executable Spec accepts the model's decision -/
 theorem specEnvelope_decide (f : Facts) : specEnvelope f (decideEnv f).1 (decideEnv f).2 = true := by
   unfold specEnvelope decideEnv
@@ -196,3 +257,9 @@ end C21
 #print axioms C21.specEnvelope_decide
 #print axioms C21.specRecord_decide
 #print axioms C21.decide_is_model
+#print axioms C21.signaturePayload_injective
+#print axioms C21.empty_field_not_movable
+#print axioms C21.splitPayload_signaturePayload
+#print axioms C21.specPayloadBytes_model
+#print axioms C21.specResplit_model
+#print axioms C21.resplit_sound
